@@ -1145,6 +1145,16 @@ def main():
         out.append("/-- who calls the constructor, with which arguments -/")
         out.append("def constructorCalls : List (String × String × String) := [" + ", ".join(f'("{a}", "{b}", "{c}")' for a, b, c in calls) + "]")
         out.append("")
+        # small wrappers that take no lock and have no model of their own: pinned by their token text (`TieCode.glue_ok`)
+        glue = []
+        for f in fns:
+            if f["file"] == "internal.rs" or f["name"] == "fmt" or (f["ctx"], f["name"]) == ("Stream_ReceiveStream", "poll_next"): continue
+            if any(t in ("acquire_internal", "try_acquire_internal") for t in f["toks"]): continue
+            if f["ctx"] == "ChannelInternal": continue
+            glue.append((f"{f['ctx']}::{f['name']}", " ".join(f["toks"]).replace('"', "'")))
+        out.append("/-- the wrappers around the translated functions (conversions, constructors of handles / futures / streams, `Iterator::next`, …), as token text -/")
+        out.append("def glue : List (String × String) := [")
+        out.append(",\n".join(f'  ("{a}", "{b}")' for a, b in glue)); out.append("]"); out.append("")
         out.append("/-- the translated functions, in source order -/")
         out.append("def names : List String := [" + ", ".join(f'"{n}"' for n in names) + "]")
         out.append("")
